@@ -235,18 +235,31 @@ SysTarget(s, A) == LET hits == {i \in DOMAIN Systems[s].map : Systems[s].map[i].
                    ELSE ResolveAtom(Systems[s].map[CHOOSE i \in hits : TRUE].unit)
 SysTargetName(s, A) == LET hits == {i \in DOMAIN Systems[s].map : Systems[s].map[i].dim = A.dim} IN
                        IF hits = {} \/ A.dim \in EmDims THEN "" ELSE Systems[s].map[CHOOSE i \in hits : TRUE].unit
-\* A: <<x, A->U->A>>, B: <<A->U>>
-BaseEval(A, s, dt, xs) ==
-  LET x == InVec(dt, xs) U == SysTarget(s, A) IN
+\* The registry a quantity lives in may be configured with a unit system (UnitRegistry(unit_system = ...)): cfg is the
+\* index of that system in Systems, 0 when the registry was made without one.  A unit-system request made with the
+\* DEFAULT argument (in_base(), convert_to_base(), get_base_equivalent()) asks for "the configured base units
+\* (defaults to MKS)" (docstrings of in_base / convert_to_base): unit_registry._sanitize_unit_system(None, obj) reads
+\* obj.units.registry.unit_system, and UnitRegistry.__init__ resolves its own None to mks.
+MksIdx == CHOOSE s \in DOMAIN Systems : Systems[s].name = "mks"
+DefaultSys(cfg) == IF cfg = 0 THEN MksIdx ELSE cfg
+\* the request family the default-argument forms of a base case (requested system s, registry configured cfg) belong
+\* to: the same request as the named forms when the default resolves to s, else a request of their own
+DefaultIsNamed(s, cfg) == DefaultSys(cfg) = s
+\* A: <<x, A->U->A>>, B: <<A->U>>, C: <<A->Ud>> (Ud the target of the default-argument forms when it is another system)
+BaseEval(A, s, cfg, dt, xs) ==
+  LET x == InVec(dt, xs) U == SysTarget(s, A) d == DefaultSys(cfg)
+      Ud == SysTarget(d, A) IN
   IF ~(U.ok /\ ExactPair(A, U) /\ ExactPair(U, A)) THEN Inexact(x)
   ELSE LET fau == RouteFactor(A, U) fua == RouteFactor(U, A)
            au == ApplyVec(x, fau)
-           cd == [A |-> <<x, ApplyVec(au, fua)>>, B |-> <<au>>, C |-> <<>>] IN
+           aud == IF d # s /\ Ud.ok /\ ExactPair(A, Ud) /\ FitsVec(x, RouteFactor(A, Ud)) /\ VecOk(ApplyVec(x, RouteFactor(A, Ud)))
+                  THEN <<ApplyVec(x, RouteFactor(A, Ud))>> ELSE <<>>
+           cd == [A |-> <<x, ApplyVec(au, fua)>>, B |-> <<au>>, C |-> aud] IN
        IF FitsVec(x, fau) /\ FitsVec(au, fua) /\ VecsOk(cd.A) /\ VecsOk(cd.B)
        THEN [exact |-> TRUE, cd |-> cd, aa |-> x] ELSE Inexact(x)
 
 \* keyed the way MC_C03 exports a case and Trace_C03 reads it back
-CaseEval(kind, A, B, C, s, dt, xs) == IF kind = "conv" THEN ConvEval(A, B, C, dt, xs) ELSE BaseEval(A, s, dt, xs)
+CaseEval(kind, A, B, C, s, cfg, dt, xs) == IF kind = "conv" THEN ConvEval(A, B, C, dt, xs) ELSE BaseEval(A, s, cfg, dt, xs)
 ClsOf(A) == IF A.dim = TemperatureDim THEN "temperature" ELSE IF A.dim = AngleDim THEN "angle"
             ELSE IF A.dim \in EmDims THEN "em" ELSE "other"
 
